@@ -10,6 +10,10 @@ tie:   generated command histories (virtual-time advances, connection switched o
        wire trace emitted by backend.py == the model's translation;  result == model;  result == reference (TtlMapMs) when
        no connection fault hit the command;  degrade clauses of the property when one did;  server keyspace == model == reference.
        Decorators stacked on a down backend are run on the real code against the property's own clause (body's own result).
+       Lock wait loops (harness/redislock.py): a HOLDER keeps the lock while a WAITER is inside the wait loop of lock() /
+       @locked / @cache(lock=True) / a LOCKED transaction, the outage begins at every client-call position of the waiter's loop,
+       suppress on/off: the waiter must come back (own result or the documented error) after at most one more SET NX attempt -
+       compared with `lockRun` / `txLockRun` of Model/RedisLock.lean as well.
 """
 from __future__ import annotations
 
@@ -19,6 +23,7 @@ from pathlib import Path
 
 from .. import redisstub as rs  # must precede any import of cashews
 from .. import redishist as rh
+from .. import redislock as rl
 from .. import vtime
 from ..core import ROOT, Check, HarnessError, ddmin, proof_stage
 from ..vtime import CLOCK
@@ -44,6 +49,8 @@ TRUSTED = [
     "lean/CashewsVerif/Model/RedisSrv.lean: model of the Redis server - our reading of the Redis documentation for the ~25 commands "
     "used and of the three Lua scripts (pinned to the SHA1 of their text, recomputed from backend.py every run); no real server is reachable",
     "hand-written models RedisBackend.lean / SafeClient.lean of backend.py / client.py, tied to the code by this run's wire-trace and result correspondence",
+    "hand-written model RedisLock.lean of the wait loops of _BackendInterface.lock() and LockTransactionBackend._lock_updates (small-step, the rest "
+    "of the system as an arbitrary `env`), tied to the code by the lock-wait stage (waiter's wire trace and outcome, holder's calls replayed as env)",
     "harness: virtual clock, persistent line-protocol driver, canonicalisation; the serializer is run, not modelled (a non-int value is "
     "identified with the bytes the real serializer produces; C09 covers decode(encode v) = v)",
 ]
@@ -51,7 +58,10 @@ PARTIAL = (
     "Decided relative to two models (stub of redis-py, Lean model of the server), neither validated against the real thing. Not exhibited: "
     "non-dyadic / sub-millisecond TTLs, non-canonical numerals such as b'007' and text read from bit-array keys, glob specials other than '*', "
     "SCAN cursors under concurrent modification, partial application of a pipeline, server restarts (script cache loss), 64-bit overflow, "
-    "get_size / set_raw / get_raw / is_locked(wait=...), real sockets and timeouts."
+    "get_size / set_raw / get_raw / is_locked(wait=...), real sockets and timeouts. Lock wait loops: one waiter and one parked holder (the holder "
+    "makes no calls while the waiter waits); outages begin at a client-call position of the waiter, not inside asyncio.sleep(check_interval) with "
+    "other traffic; the transaction's wait loop has no liveness ping - on a down server with suppression on it waits its whole timeout and raises "
+    "LockedError (bounded; accepted as that loop's documented error)."
 )
 
 KNOWN_SIGS = {
@@ -207,6 +217,7 @@ class Ctx:
         self.found = 0
         self.fault_variants = 0
         self.pending_corr = None     # first correspondence-only disagreement: reported at the end unless a failing input turns up
+        self.pending_lock_corr = None
 
     def run(self, cfg, ops, faults):
         if cfg.get("facade") and any(op[0] == "delmany" and not op[1] for op in ops):
@@ -536,6 +547,57 @@ def decorator_stage(chk: Check, ctx: Ctx) -> tuple[int, int]:
     return n, nontrivial
 
 
+# ------------------------------------------------------------------------------------------------ waiting for a lock when the server goes down
+
+def corpus_lock_cases():
+    for f in sorted((ROOT / "corpus" / PROP).glob("*.json")):
+        c = json.loads(f.read_text())
+        if c.get("kind") == "lockwait":
+            yield f.name, c["case"]
+
+
+def lockwait_replay(case, rec, p, origin):
+    return {"kind": "lockwait", "case": case, "origin": origin, "problem": p["kind"],
+            "scenario": "HOLDER takes the lock and stays in its body; WAITER enters the wait loop; the server goes down at the waiter's "
+                        "client call #case.outage[0] (0 = its first SET NX, 1 = its first PING, …) for case.outage[1] calls (null = for good)",
+            "record": {k: (([show_wire([e]) for e in v[:16]] + ([f"… {len(v) - 16} more calls"] if len(v) > 16 else []))
+                           if k.endswith("_wire") else v) for k, v in rec.items()},
+            "replay_cmd": "./check C19 --replay <this file>"}
+
+
+def lock_stage(chk: Check, ctx: Ctx) -> dict:
+    """a holder keeps the lock while a waiter is inside the wait loop; the outage begins at every call position of that loop"""
+    stats = {"runs": 0, "nontrivial": 0, "outcomes": {}, "model_outcomes": {}, "exhaustive_grid": None}
+    cases = [(f"corpus:{n}", c) for n, c in corpus_lock_cases()] + [("grid", c) for c in rl.lock_cases(chk.thorough)]
+    stats["exhaustive_grid"] = (f"{len(rl.VARIANTS)} variants x suppress on/off x outage start at waiter call 0..{12 if chk.thorough else 7} x "
+                                f"outage length (for good / 40 calls{' / 1 / 2' if chk.thorough else ''}) + check_interval 1 tick + wait=False")
+    seen_sigs = set()
+    for origin, case in cases:
+        rec = rl.run_lockwait(ctx.drv, case)
+        stats["runs"] += 1
+        if rec["waiter_calls_while_down"]:
+            stats["nontrivial"] += 1
+        k = f"{case['variant']}:{rec['waiter'].split(':')[0]}"
+        stats["outcomes"][k] = stats["outcomes"].get(k, 0) + 1
+        stats["model_outcomes"][str(rec["model"])] = stats["model_outcomes"].get(str(rec["model"]), 0) + 1
+        probs = rl.judge_lockwait(case, rec)
+        if not probs:
+            continue
+        props = [p for p in probs if p["kind"] == "property"]
+        if not props:
+            if ctx.pending_lock_corr is None:
+                ctx.pending_lock_corr = (case, rec, probs[0], origin)
+            continue
+        p = props[0]
+        sig = (case["variant"], p["sig"] or p["what"][:40])
+        if sig in seen_sigs or len(seen_sigs) >= 3:
+            continue
+        seen_sigs.add(sig)
+        chk.violation(p["what"], lockwait_replay(case, rec, p, origin), signature=None)
+        ctx.found += 1
+    return stats
+
+
 # ------------------------------------------------------------------------------------------------ entry points
 
 CFGS = [{"suppress": True, "facade": False}, {"suppress": True, "facade": True}, {"suppress": False, "facade": False},
@@ -580,25 +642,42 @@ def run(chk: Check) -> int:
                 if probs2 and ctx.handle(cfg, ops, faults, steps2, probs2, f"gen:{i}+faults"):
                     break
         ndeco, ndeco_nt = decorator_stage(chk, ctx)
+        lock = lock_stage(chk, ctx)
         if ctx.pending_corr is not None and ctx.found == 0:
             ctx.report_correspondence()
+        elif ctx.pending_lock_corr is not None and ctx.found == 0:
+            case, rec, p, origin = ctx.pending_lock_corr
+            chk.violation("correspondence broken (interface.py lock() / transaction.py _lock_updates vs Model/RedisLock.lean; the waiter came back "
+                          "as the property demands): " + p["what"],
+                          dict(lockwait_replay(case, rec, p, origin),
+                               broken="correspondence Model/RedisLock.lean <-> cashews/backends/interface.py lock(), cashews/backends/transaction.py _lock_updates"),
+                          signature=None, no_input=True)
+            ctx.found += 1
         if proof is not None:
             chk.proof_broken(proof, ctx.found > 0)
         chk.coverage.update({
-            "evaluations": ctx.evaluations + ndeco,
-            "distinct_nontrivial": len(ctx.distinct) + ndeco_nt,
+            "evaluations": ctx.evaluations + ndeco + lock["runs"],
+            "distinct_nontrivial": len(ctx.distinct) + ndeco_nt + lock["nontrivial"],
             "rule": "histories of 1..30 commands (27 command kinds over string/lock/set/sorted-set/bit-array keys, ms TTLs as multiples of 125 ms, "
                     "virtual-time advances) generated from VERIF_SEED, round-robin over suppress on/off x raw backend/Cache facade; every history is run "
                     "fault-free and then with the connection down over intervals of client-call indices (thorough: down from EVERY call position, "
                     "quick: sampled; histories of <= 5 commands: every start position x every length 1..4 and 'forever'). A case is non-trivial iff "
                     "it reached an interesting state (list in interesting_states_cases); distinct = distinct (config, ops, fault intervals). "
-                    "Decorator runs (14 decorators/stacks x suppress x fault plans x advances) count as non-trivial when at least one call failed.",
+                    "Decorator runs (14 decorators/stacks x suppress x fault plans x advances) count as non-trivial when at least one call failed. "
+                    "Lock-wait runs (two tasks on the virtual loop: a holder inside its body, a waiter inside the wait loop of lock() / @locked / "
+                    "@cache(lock=True) / a LOCKED transaction; the outage begins at EVERY client-call position 0..N of the waiter's loop, for good or "
+                    "for a number of calls; suppress on/off; check_interval 0 and 1 tick; wait=False) are an exhaustive grid (lock_wait_grid) and "
+                    "count as non-trivial when the waiter made at least one call while the server was down.",
             "samples": ctx.samples,
             "corpus_cases": ncorpus,
             "history_runs": ctx.evaluations,
             "fault_variant_runs": ctx.fault_variants,
             "histories_with_exhaustive_fault_positions": exhaustive_cases,
             "decorator_runs": ndeco,
+            "lock_wait_runs": lock["runs"],
+            "lock_wait_grid": lock["exhaustive_grid"],
+            "lock_wait_outcomes": lock["outcomes"],
+            "lock_wait_model_outcomes": lock["model_outcomes"],
             "op_histogram": ctx.op_hist,
             "interesting_states_cases": ctx.interesting,
             "driver_requests": ctx.drv.requests,
@@ -623,6 +702,18 @@ def replay(chk: Check, path: str) -> int:
             res = judge_decorated(c["decorator"], c["suppress"], recs)
             if res and not (res[1] and any(f.get("status") == "known" and f.get("signature") == res[1] for f in chk.known)):
                 print(f"VIOLATION property={PROP} replay={path}\n  ({res[0]})")
+                return 1
+            print("replay: no disagreement")
+            return 0
+        if c.get("kind") == "lockwait":
+            rec = rl.run_lockwait(ctx.drv, c["case"])
+            for k, v in rec.items():
+                print(f"  {k}: {show_wire(v[:16]) + (f' … {len(v) - 16} more calls' if len(v) > 16 else '') if k.endswith('_wire') else v}")
+            probs = rl.judge_lockwait(c["case"], rec)
+            for p in probs:
+                print("  " + p["kind"] + ": " + p["what"])
+            if probs:
+                print(f"VIOLATION property={PROP} replay={path}")
                 return 1
             print("replay: no disagreement")
             return 0
